@@ -23,7 +23,12 @@ def _rlp_len(n, off):
 def gen_receipt(rng, size_class=None):
     """an RLP list of random items; total size classes around the short/long
     list forms"""
-    size_class = size_class or rng.choice(["tiny", "short", "long", "big"])
+    size_class = size_class or rng.choice(["tiny", "short", "long", "big", "edge"])
+    if size_class == "edge":
+        # one RLP string whose length sits where the RLP prefix, a one-byte length or a
+        # 255-byte chunk changes form
+        n = rng.choice([54, 55, 56, 57, 252, 253, 254, 255, 256, 257, 509, 510, 511])
+        return rlp_encode(rng.randbytes(n))
     if size_class == "tiny":
         items = [rng.randbytes(rng.randint(0, 5)) for _ in range(rng.randint(0, 3))]
     elif size_class == "short":
